@@ -91,6 +91,7 @@ type vxOps struct {
 	authCalls  []vxCall
 	flushed    []*SrvReq
 	flushCall  bool // FlushOp calls req.Flush()
+	direct     bool // Read fills req.Rc in place (InitRread/SetRreadCount) instead of calling RespondRread
 	hook       func(op string, req *SrvReq)
 	opened     int
 	closed     int
@@ -188,6 +189,16 @@ func (o *vxOps) Create(req *SrvReq) {
 func (o *vxOps) Read(req *SrvReq) {
 	o.note("read", req)
 	o.answer(req, func() {
+		if o.echo && o.direct {
+			// the way Ufs.Read answers: fill the request's own reply buffer in place, then Respond
+			rc := req.Rc
+			if InitRread(rc, 2) == nil {
+				rc.Data[0], rc.Data[1] = byte(req.Tc.Offset), byte(req.Tc.Offset>>8)
+				SetRreadCount(rc, 2)
+				req.Respond()
+			}
+			return
+		}
 		if o.echo {
 			// content determined by the request: the two low bytes of the offset
 			req.RespondRread([]byte{byte(req.Tc.Offset), byte(req.Tc.Offset >> 8)})
